@@ -64,6 +64,7 @@ POOLS5 = [
     [-3, 1, -1, 15, 9],
     ["x0", -1, 0, ("t",), "y"],
     ["x0", "x1", "x2", "y", "z"],          # integer_var('x', k) creates the labels 'x0', 'x1', ...
+    [1, 2.5, 0, -0.5, 3],                  # ints next to non-integral floats
 ]
 INT_POOLS5 = [
     [0, 1, 2, 3, 4],
